@@ -332,12 +332,17 @@ func (u *Unmarshaler) generateMap(keyType, elemType reflect.Type, mapValue any) 
 
 		switch dereffedElemKind {
 		case reflect.Slice:
+			// 元素为 *[]T 时按其所指的切片类型填充，再存入指针本身
 			target := reflect.New(dereffedElemType)
-			if err := u.fillSlice(elemType, target.Elem(), keythData); err != nil {
+			if err := u.fillSlice(dereffedElemType, target.Elem(), keythData); err != nil {
 				return emptyValue, err
 			}
 
-			targetValue.SetMapIndex(key, target.Elem())
+			if fieldElemKind == reflect.Ptr {
+				targetValue.SetMapIndex(key, target)
+			} else {
+				targetValue.SetMapIndex(key, target.Elem())
+			}
 		case reflect.Struct:
 			keythMap, ok := keythData.(map[string]any)
 			if !ok {
@@ -360,12 +365,19 @@ func (u *Unmarshaler) generateMap(keyType, elemType reflect.Type, mapValue any) 
 				return emptyValue, errTypeMismatch
 			}
 
-			innerValue, err := u.generateMap(elemType.Key(), elemType.Elem(), keythMap)
+			// 元素为 *map[K]V 时按其所指的字典类型生成，再存入指向它的指针
+			innerValue, err := u.generateMap(dereffedElemType.Key(), dereffedElemType.Elem(), keythMap)
 			if err != nil {
 				return emptyValue, err
 			}
 
-			targetValue.SetMapIndex(key, innerValue)
+			if fieldElemKind == reflect.Ptr {
+				target := reflect.New(dereffedElemType)
+				target.Elem().Set(innerValue)
+				targetValue.SetMapIndex(key, target)
+			} else {
+				targetValue.SetMapIndex(key, innerValue)
+			}
 		default:
 			switch v := keythData.(type) {
 			case json.Number:
